@@ -238,6 +238,28 @@ theorem beToNat_orFirst (b : UInt8) (r : Bytes) (m : UInt8) :
     beToNat (orFirst (b :: r) m) = (b ||| m).toNat * 256 ^ r.length + beToNat r := by
   rw [orFirst_cons, beToNat_cons]
 
+/-- or-ing the flag byte into a top byte whose three flag bits are clear ADDS `flags · 256^(len−1)` to
+the big-endian value: the flags occupy the top three bits and nothing else changes -/
+theorem byte_or_flags_toNat (f : ZCash.Flags) : ∀ b : UInt8, b &&& 0xe0 = 0 →
+    (b ||| f.toByte).toNat = b.toNat + f.toByte.toNat := by
+  obtain ⟨c, i, s⟩ := f
+  cases c <;> cases i <;> cases s <;> exact UInt8.forall_of _ (by decide +kernel)
+
+theorem beToNat_setFlags (f : ZCash.Flags) (b : UInt8) (r : Bytes) (hb : b &&& 0xe0 = 0) :
+    beToNat (ZCash.setFlags f (b :: r)) = beToNat (b :: r) + f.toByte.toNat * 256 ^ r.length := by
+  show beToNat ((b ||| f.toByte) :: r) = _
+  rw [beToNat_cons, beToNat_cons, byte_or_flags_toNat f b hb]; ring
+
+/-- … and clearing them recovers the value -/
+theorem clearFlags_setFlags (f : ZCash.Flags) (b : UInt8) (r : Bytes) (hb : b &&& 0xe0 = 0) :
+    ZCash.clearFlags (ZCash.setFlags f (b :: r)) = b :: r := by
+  show ((b ||| f.toByte) &&& 0x1f) :: r = _
+  have : ∀ (f : ZCash.Flags) (b : UInt8), b &&& 0xe0 = 0 → (b ||| f.toByte) &&& 0x1f = b := by
+    intro f
+    obtain ⟨c, i, s⟩ := f
+    cases c <;> cases i <;> cases s <;> exact UInt8.forall_of _ (by decide +kernel)
+  rw [this f b hb]
+
 theorem all_zero_iff (r : Bytes) : r.all (· == 0) = true ↔ r = List.replicate r.length 0 := by
   induction r with
   | nil => simp
